@@ -32,21 +32,42 @@ pub fn spaces(tier: &str) -> Vec<CSpace> {
     });
     v.push(CSpace {
         name: "feat-struct".into(),
-        gen: Box::new(move |ctx| gen_struct(ctx, &FOpts { max_members: if quick { 2 } else { 3 }, two_counterparts: true, full_menu: true, params: true })),
+        gen: Box::new(move |ctx| gen_struct(ctx, &FOpts { max_members: if quick { 2 } else { 3 }, two_counterparts: true, force_two: false, full_menu: true, params: true })),
         bound: if quick { Some(4) } else { Some(6) },
     });
     v.push(CSpace {
         name: "feat-enum".into(),
-        gen: Box::new(move |ctx| gen_enum(ctx, &FOpts { max_members: if quick { 2 } else { 3 }, two_counterparts: true, full_menu: true, params: true })),
+        gen: Box::new(move |ctx| gen_enum(ctx, &FOpts { max_members: if quick { 2 } else { 3 }, two_counterparts: true, force_two: false, full_menu: true, params: true })),
         bound: if quick { Some(4) } else { Some(6) },
     });
-    v.push(CSpace { name: "feat-enum-prim".into(), gen: Box::new(|ctx| gen_enum_prim(ctx, &FOpts { max_members: 3, two_counterparts: false, full_menu: true, params: false })), bound: None });
+    v.push(CSpace { name: "feat-enum-prim".into(), gen: Box::new(|ctx| gen_enum_prim(ctx, &FOpts { max_members: 3, two_counterparts: false, force_two: false, full_menu: true, params: false })), bound: None });
     v
 }
 
-/// explore every corpus space; `visit(space name, choices, case)`
+/// two-counterpart hosts (C06)
+pub fn spaces_2cp(tier: &str) -> Vec<CSpace> {
+    let quick = tier == "quick";
+    vec![
+        CSpace {
+            name: "feat-struct-2cp".into(),
+            gen: Box::new(move |ctx| gen_struct(ctx, &FOpts { max_members: if quick { 2 } else { 3 }, two_counterparts: true, force_two: true, full_menu: true, params: false })),
+            bound: if quick { Some(4) } else { Some(6) },
+        },
+        CSpace {
+            name: "feat-enum-2cp".into(),
+            gen: Box::new(move |ctx| gen_enum(ctx, &FOpts { max_members: if quick { 2 } else { 3 }, two_counterparts: true, force_two: true, full_menu: true, params: false })),
+            bound: if quick { Some(4) } else { Some(6) },
+        },
+    ]
+}
+
 pub fn for_each<V: Fn(&str, &[u32], FCase) + Sync>(tier: &str, caps: &Caps, rep: &Report, visit: V) {
-    for sp in spaces(tier) {
+    for_each_in(spaces(tier), caps, rep, visit)
+}
+
+/// explore every corpus space; `visit(space name, choices, case)`
+pub fn for_each_in<V: Fn(&str, &[u32], FCase) + Sync>(sps: Vec<CSpace>, caps: &Caps, rep: &Report, visit: V) {
+    for sp in sps {
         let st = explore(|ctx| (sp.gen)(ctx), sp.bound, caps, |ch, c| visit(&sp.name, ch, c));
         let b = sp.bound.map(|b| format!("dev({})", b)).unwrap_or_else(|| "full".into());
         rep.add_stats(&sp.name, &b, &st);
@@ -56,7 +77,7 @@ pub fn for_each<V: Fn(&str, &[u32], FCase) + Sync>(tier: &str, caps: &Caps, rep:
 
 pub fn replay_case(tier_spaces: &[&str], space: &str, choices: &[u32]) -> Option<FCase> {
     for t in tier_spaces {
-        for sp in spaces(t) {
+        for sp in spaces(t).into_iter().chain(spaces_2cp(t)) {
             if sp.name == space {
                 let (c, full) = crate::explore::replay_one(|ctx| (sp.gen)(ctx), choices);
                 if full == choices {
